@@ -123,16 +123,19 @@ inductive Atom
   | text (b : Bytes)
   /-- `{{ "literal" }}` -/
   | showConst (ctx : Ctx) (b : Bytes)
+  /-- `{{ p }}` for the `i`-th parameter of the enclosing macro -/
+  | showParam (ctx : Ctx) (i : Nat)
   /-- `{{ render "p" }}` (`viaVar = false`) or `{% var x = render "p" %}{{ x }}` (`viaVar = true`) -/
   | render (ctx : Ctx) (p : Nat) (viaVar : Bool)
-  /-- `{{ M() }}` or `{% var x = M() %}{{ x }}` -/
-  | call (ctx : Ctx) (m : Nat) (viaVar : Bool)
+  /-- `{{ M(c₁, …) }}` or `{% var x = M(c₁, …) %}{{ x }}`; the arguments are string constants -/
+  | call (ctx : Ctx) (m : Nat) (viaVar : Bool) (args : List Bytes)
   deriving Repr
 
 inductive Item
   | atom (a : Atom)
-  /-- `{% macro M [format] %}body{% end %}`; without a format the macro has the format of its file -/
-  | macroDecl (m : Nat) (fmt : Option Format) (body : List Atom)
+  /-- `{% macro M(p₁ T₁, …) [format] %}body{% end %}`; without a format the macro has the format of
+  its file; a parameter type is `string` or a format type -/
+  | macroDecl (m : Nat) (fmt : Option Format) (params : List Format) (body : List Atom)
   | extends_ (p : Nat)
   | import_ (p : Nat)
   deriving Repr
@@ -147,13 +150,18 @@ inductive Err
   | noFile (p : Nat)
   | undefined (m : Nat)
   | badExtends
+  | badArgs
   /-- the escaper table handed to the driver has no entry for this triple -/
   | needEsc (f : Format) (c : Ctx) (b : Bytes)
   deriving Repr
 
-/-- a declared macro: result format, body, and the macros visible where it was declared -/
+/-- A declared macro: result format, parameter types, body and its scope. A macro of a file that is
+run (main file, rendered file, layout) sees what was declared before it (`env`, `home = none`); a
+macro of an imported or extending file sees the whole file (`home = some q`: package scope, forward
+references allowed), resolved when it is called. -/
 inductive MacroVal where
-  | mk (fmt : Format) (body : List Atom) (env : List (Nat × MacroVal))
+  | mk (fmt : Format) (params : List Format) (body : List Atom) (env : List (Nat × MacroVal))
+      (home : Option Nat)
 
 abbrev Env := List (Nat × MacroVal)
 
@@ -200,72 +208,103 @@ def showSite (E : Engine) (guard : Bool) (viaVar : Bool) (frm : Format) (ctx : C
     Except Err Bytes :=
   if !viaVar && guard then .ok (fast E.conv frm ctx content) else E.esc frm ctx content
 
-/-- `R p` = (format of file `p`, its output when run on its own). Fuel bounds the depth of macro calls. -/
-def evalAtom (E : Engine) (R : Nat → Except Err (Format × Bytes)) : Nat → Env → Atom → Except Err Bytes
-  | _, _, .text b => .ok b
-  | _, _, .showConst ctx b => E.esc .text ctx b
-  | _, _, .render ctx p viaVar =>
+/-- the macros a called macro sees: its own environment, or the package scope of its home file -/
+def scopeEnv (S : Nat → Except Err Env) (env : Env) : Option Nat → Except Err Env
+  | none => .ok env
+  | some q => S q
+
+def nthArg : List (Format × Bytes) → Nat → Option (Format × Bytes)
+  | [], _ => none
+  | a :: _, 0 => some a
+  | _ :: r, i+1 => nthArg r i
+
+/-- `R p` = (format of file `p`, its output when run on its own); `S q` = package scope of the
+imported file `q`; `args` = the arguments of the enclosing macro call with their parameter types.
+Fuel bounds the depth of macro calls. -/
+def evalAtom (E : Engine) (R : Nat → Except Err (Format × Bytes)) (S : Nat → Except Err Env) :
+    Nat → Env → List (Format × Bytes) → Atom → Except Err Bytes
+  | _, _, _, .text b => .ok b
+  | _, _, _, .showConst ctx b => E.esc .text ctx b
+  | _, _, args, .showParam ctx i =>
+    match nthArg args i with
+    | none => .error (.undefined i)
+    | some (f, b) => E.esc f ctx b
+  | _, _, _, .render ctx p viaVar =>
     match R p with
     | .error e => .error e
     | .ok (f, content) => showSite E (E.renderGuard f ctx) viaVar f ctx content
-  | 0, _, .call _ _ _ => .error .fuel
-  | n+1, env, .call ctx m viaVar =>
+  | 0, _, _, .call _ _ _ _ => .error .fuel
+  | n+1, env, _, .call ctx m viaVar cargs =>
     match lookup env m with
     | none => .error (.undefined m)
-    | some (.mk f body env') =>
-      match mapE (evalAtom E R n env') body with
+    | some (.mk f ps body cenv home) =>
+      if cargs.length ≠ ps.length then .error .badArgs else
+      match scopeEnv S cenv home with
       | .error e => .error e
-      | .ok content => showSite E (E.macroGuard f ctx) viaVar f ctx content
+      | .ok senv =>
+        match mapE (evalAtom E R S n senv (ps.zip cargs)) body with
+        | .error e => .error e
+        | .ok content => showSite E (E.macroGuard f ctx) viaVar f ctx content
 
 /-- state of the pass over the items of an imported file -/
 structure ISt where
-  loc : Env    -- visible inside the file (own macros and what it imports)
+  loc : Env    -- package scope of the file: own macros and what it imports
   exp : Env    -- what an importer gets: own macros only
 
-/-- one item of an imported file; `X` gives the exports of the files it imports -/
-def exportStep (X : Nat → Except Err Env) (fmt : Format) (st : ISt) : Item → Except Err ISt
+/-- one item of the imported file `q`; `X` gives the exports of the files it imports. Top-level
+texts and shows are dropped (`templateFileToPackage`); `extends` is skipped (the file is the dummy
+import of the child). -/
+def passStep (X : Nat → Except Err Env) (q : Nat) (fmt : Format) (st : ISt) : Item → Except Err ISt
   | .atom _ => .ok st
   | .extends_ _ => .ok st
-  | .macroDecl m fm body =>
-    .ok ⟨(m, .mk (fm.getD fmt) body st.loc) :: st.loc, (m, .mk (fm.getD fmt) body st.loc) :: st.exp⟩
-  | .import_ q =>
-    match X q with
+  | .macroDecl m fm ps body =>
+    .ok ⟨(m, .mk (fm.getD fmt) ps body [] (some q)) :: st.loc,
+         (m, .mk (fm.getD fmt) ps body [] (some q)) :: st.exp⟩
+  | .import_ q' =>
+    match X q' with
     | .error e => .error e
     | .ok ex => .ok ⟨ex ++ st.loc, st.exp⟩
 
-/-- The macros a file exports (most recent first). Top-level texts and shows of an imported file
-are dropped (`templateFileToPackage`); its `extends` is skipped (it is the dummy import of the child). -/
-def exportsOf (files : List File) : Nat → Nat → Except Err Env
+def expOf : Except Err ISt → Except Err Env
+  | .error e => .error e
+  | .ok st => .ok st.exp
+
+def locOf : Except Err ISt → Except Err Env
+  | .error e => .error e
+  | .ok st => .ok st.loc
+
+/-- the pass over an imported (or extending) file: its package scope and its exports -/
+def passOf (files : List File) : Nat → Nat → Except Err ISt
   | 0, _ => .error .fuel
   | n+1, q =>
     match files[q]? with
     | none => .error (.noFile q)
-    | some f =>
-      match foldE (exportStep (exportsOf files n) f.format) ⟨[], []⟩ f.items with
-      | .error e => .error e
-      | .ok st => .ok st.exp
+    | some f => foldE (passStep (fun q' => expOf (passOf files n q')) q f.format) ⟨[], []⟩ f.items
+
+def exportsOf (files : List File) (n q : Nat) : Except Err Env := expOf (passOf files n q)
+def scopeOf (files : List File) (n q : Nat) : Except Err Env := locOf (passOf files n q)
 
 /-- state of the pass over the items of a file that is run -/
 structure St where
   env : Env
   out : Bytes
 
-def stepItem (E : Engine) (R : Nat → Except Err (Format × Bytes)) (X : Nat → Except Err Env)
+def stepItem (E : Engine) (R : Nat → Except Err (Format × Bytes)) (S X : Nat → Except Err Env)
     (n : Nat) (fmt : Format) (st : St) : Item → Except Err St
   | .atom a =>
-    match evalAtom E R n st.env a with
+    match evalAtom E R S n st.env [] a with
     | .error e => .error e
     | .ok x => .ok ⟨st.env, st.out ++ x⟩
-  | .macroDecl m fm body => .ok ⟨(m, .mk (fm.getD fmt) body st.env) :: st.env, st.out⟩
+  | .macroDecl m fm ps body => .ok ⟨(m, .mk (fm.getD fmt) ps body st.env none) :: st.env, st.out⟩
   | .import_ q =>
     match X q with
     | .error e => .error e
     | .ok ex => .ok ⟨ex ++ st.env, st.out⟩
   | .extends_ _ => .error .badExtends
 
-def runItems (E : Engine) (R : Nat → Except Err (Format × Bytes)) (X : Nat → Except Err Env)
+def runItems (E : Engine) (R : Nat → Except Err (Format × Bytes)) (S X : Nat → Except Err Env)
     (n : Nat) (fmt : Format) (items : List Item) : Except Err Bytes :=
-  match foldE (stepItem E R X n fmt) ⟨[], []⟩ items with
+  match foldE (stepItem E R S X n fmt) ⟨[], []⟩ items with
   | .error e => .error e
   | .ok st => .ok st.out
 
@@ -289,12 +328,13 @@ def runFile (E : Engine) (files : List File) : Nat → Bool → Nat → Except E
         | none => .error (.noFile l)
         | some lay =>
           if !extendsOK f.format lay.format then .error .badExtends else
-          match runItems E (fun q => runFile E files n false q) (exportsOf files n) n lay.format
-              (.import_ p :: lay.items) with
+          match runItems E (fun q => runFile E files n false q) (scopeOf files n) (exportsOf files n) n
+              lay.format (.import_ p :: lay.items) with
           | .error e => .error e
           | .ok out => .ok (lay.format, out)
       | items =>
-        match runItems E (fun q => runFile E files n false q) (exportsOf files n) n f.format items with
+        match runItems E (fun q => runFile E files n false q) (scopeOf files n) (exportsOf files n) n
+            f.format items with
         | .error e => .error e
         | .ok out => .ok (f.format, out)
 
@@ -304,20 +344,19 @@ def Engine.allGeneric (E : Engine) : Engine :=
 
 /-! ## the documented expansions (specification side) -/
 
+/-- An item of file `q` as it reads when written into another file: a macro without a result format
+keeps the format of the file it comes from; imports stay; texts and `extends` go. -/
 def inlineItem (qfmt : Format) : Item → Option Item
-  | .macroDecl m fm body => some (.macroDecl m (some (fm.getD qfmt)) body)
+  | .macroDecl m fm ps body => some (.macroDecl m (some (fm.getD qfmt)) ps body)
+  | .import_ p => some (.import_ p)
   | _ => none
 
-/-- The declarations of file `q` as they read when written into another file: a macro without a
-result format keeps the format of the file it comes from. Texts, `extends` and imports go. -/
 def inlineDecls (q : File) : List Item :=
   q.items.filterMap (inlineItem q.format)
 
-def Item.isImport : Item → Bool
-  | .import_ _ => true
-  | _ => false
-
-/-- `q` imports nothing -/
-def File.importFree (q : File) : Bool := q.items.all (fun it => !it.isImport)
+/-- the macro name an atom calls -/
+def Atom.callee : Atom → Option Nat
+  | .call _ m _ _ => some m
+  | _ => none
 
 end ScriggoV.Compose
